@@ -721,6 +721,7 @@ func (x *c01Ctx) segArgs(pp *cgPipe, root string, opNode *cgNode, driver *cgLoop
 
 	// ---- counter
 	x.counterG(pp, owner, opNode, driver, numV, pos)
+	x.counterRangeG(pp, owner, opNode, driver, numV, lastV)
 
 	// ---- nothing after last
 	x.afterLastG(pp, owner, opNode, lastV, pos, driver.Head.C)
@@ -839,6 +840,172 @@ func (x *c01Ctx) counterG(pp *cgPipe, owner string, opNode *cgNode, driver *cgLo
 		return
 	}
 	r.Undecide("C01.R5: the counter entering the nonce in %s is not a loop-carried counter", owner)
+}
+
+// counterRangeG: a branch taken after a segment was processed that leaves the segment loop because the counter
+// reached a constant must not do so before the counter's last value in the published format (2^(8*width)-1):
+// every shorter limit turns plaintexts the format can hold into an error (or a truncated document).
+func (x *c01Ctx) counterRangeG(pp *cgPipe, owner string, opNode *cgNode, driver *cgLoop, numV, lastV CV) {
+	r, g := x.r, pp.g
+	numV = g.res(numV)
+	width := x.spec.CounterLen
+	if width <= 0 || width > 7 {
+		return
+	}
+	max := int64(1)<<(8*uint(width)) - 1
+	numKey := ""
+	if u, ok := numV.V.(*ssa.UnOp); ok && u.Op == token.MUL {
+		if k, _, ok := g.memKey(CV{numV.C, u.X}); ok {
+			numKey = k
+		}
+	}
+	same := func(b CV) bool {
+		b = g.res(b)
+		if b == numV {
+			return true
+		}
+		if u, ok := b.V.(*ssa.UnOp); ok && u.Op == token.MUL && numKey != "" {
+			if k, _, ok := g.memKey(CV{b.C, u.X}); ok && k == numKey {
+				return true
+			}
+		}
+		return false
+	}
+	// a counter kept in a variable: the comparison must read it before it is advanced
+	var advances []*cgNode
+	if numKey != "" {
+		for n := range driver.Body {
+			for _, in := range n.instrs() {
+				if st, ok := in.(*ssa.Store); ok {
+					if k, _, ok := g.memKey(CV{n.C, st.Addr}); ok && k == numKey {
+						advances = append(advances, n)
+					}
+				}
+			}
+		}
+	}
+	var nodes []*cgNode
+	for n := range driver.Body {
+		nodes = append(nodes, n)
+	}
+	sort.Slice(nodes, func(i, j int) bool { return nodes[i].idx < nodes[j].idx })
+	after := g.reach(opNode, map[*cgNode]bool{driver.Head: true})
+	// normalPath: n is not under a branch that is taken because of an error (or under one that cannot be classified)
+	normalPath := func(n *cgNode) bool {
+		for _, c := range g.domConds(n) {
+			if !driver.Body[c.At] || !after[c.At] {
+				continue
+			}
+			cv, br := g.stripNot(c.Cond, c.Branch)
+			switch y := cv.V.(type) {
+			case *ssa.BinOp:
+				if types.Identical(y.X.Type(), types.Universe.Lookup("error").Type()) || types.Identical(y.Y.Type(), types.Universe.Lookup("error").Type()) {
+					nilSide := isNilConst(y.X) || isNilConst(y.Y)
+					if !nilSide || (y.Op == token.NEQ) == br {
+						return false
+					}
+				}
+			case *ssa.Call:
+				return false
+			}
+		}
+		return true
+	}
+	lastR, _ := g.stripNot(lastV, true)
+	headStop := map[*cgNode]bool{driver.Head: true}
+	for _, n := range nodes {
+		if n == opNode || !after[n] || len(n.succs) != 2 || g.reach(n, headStop)[opNode] || !normalPath(n) {
+			continue
+		}
+		for _, to := range n.succs {
+			if driver.Body[to] {
+				continue
+			}
+			// the conditions under which this way out of the loop is taken once a segment has been processed: only
+			// tests of the counter against a constant and of the 'last' value are understood
+			first, found, pos := int64(-1), false, ""
+			understood := true
+			for _, c := range g.condsOnEdge(n, to) {
+				if !driver.Body[c.At] || !after[c.At] {
+					continue
+				}
+				cv, br := g.stripNot(c.Cond, c.Branch)
+				if cv == lastR || g.sameValue(cv, lastR) {
+					continue
+				}
+				bo, ok := cv.V.(*ssa.BinOp)
+				if !ok {
+					understood = false
+					break
+				}
+				if isNilConst(bo.X) || isNilConst(bo.Y) {
+					continue // the no-error side of an error test (normalPath)
+				}
+				lx, ly := g.lin(CV{cv.C, bo.X}), g.lin(CV{cv.C, bo.Y})
+				op := bo.Op
+				if lx.isConst() && !ly.isConst() {
+					lx, ly = ly, lx
+					op = c01FlipOp(op)
+				}
+				if lx.isConst() || !ly.isConst() || !same(lx.Base) {
+					understood = false
+					break
+				}
+				for _, a := range advances {
+					if a == c.At || g.reach(a, headStop)[c.At] {
+						understood = false // the variable may already have been advanced when it is compared
+					}
+				}
+				if !br {
+					op = c01NegOp(op)
+				}
+				// the loop is left when counter+lx.K op ly.K: the smallest counter value for which that happens
+				k := ly.K - lx.K
+				f := int64(-1)
+				switch op {
+				case token.EQL:
+					f = ((k % (max + 1)) + max + 1) % (max + 1)
+				case token.GEQ:
+					f = k
+				case token.GTR:
+					f = k + 1
+				default:
+					understood = false
+				}
+				if f < 0 {
+					understood = false
+				}
+				if f > first {
+					first = f
+				}
+				found, pos = true, g.pos(CV{cv.C, bo})
+			}
+			if !understood || !found {
+				continue
+			}
+			cons := owner + " segment counter range"
+			r.Check(first >= max, "C01.R5-segment-args", cons, pos, fmt.Sprintf("the loop is left on the counter only at its last value %d", max),
+				fmt.Sprintf("after a segment that is not the last the segment loop is left as soon as the counter reaches %d; the published format numbers segments with a %d-byte counter, so documents of up to %d segments must be produced and read back, and every input longer than %d segments now ends in an error or is cut short", first, width, max+1, first+1))
+		}
+	}
+}
+
+func c01NegOp(op token.Token) token.Token {
+	switch op {
+	case token.EQL:
+		return token.NEQ
+	case token.NEQ:
+		return token.EQL
+	case token.LSS:
+		return token.GEQ
+	case token.GEQ:
+		return token.LSS
+	case token.GTR:
+		return token.LEQ
+	case token.LEQ:
+		return token.GTR
+	}
+	return token.ILLEGAL
 }
 
 // afterLastG: once the operation ran with last == true it cannot run again.
